@@ -544,7 +544,7 @@ fn execute(b: &Built, exit_mode: u8, mode: RunMode, scratch: &std::path::Path, s
 /// Many errors in one run: the latest wins after hundreds of them, in a loop and on hundreds of
 /// different lines; the first error after exit_on_error is fatal with its own line however far down.
 fn scale(w: &mut Worker) {
-    let sizes: Vec<usize> = w.tier.pick(vec![300, 3000], vec![300, 3000, 30000]);
+    let sizes: Vec<usize> = with_thresholds_usize(w.tier.pick(vec![300, 3000], vec![300, 3000, 30000]), w.tier.pick(1024, 16384));
     for &n in &sizes {
         // a loop raising n errors
         let text = format!(
@@ -630,12 +630,44 @@ fn message_texts(w: &mut Worker) {
     }
 }
 
+/// An error that comes and goes: the condition of a loop that is already running reports an error in
+/// one of its evaluations (an unknown handle for that one evaluation) and answers normally again
+/// afterwards. The error is recorded with the line of the loop, the script goes on with the next
+/// instruction - the first line of the body - and the loop goes on as written: its end comes back to
+/// the condition, and the enclosing loops are not disturbed.
+fn transient_errors(w: &mut Worker) {
+    for bad_round in 1..=3u32 {
+        for (form, cond) in [("while-command", "while not array_is_empty ${h}"), ("while-alias", "while notempty ${h}"), ("while-function", "while has_items ${h}")] {
+            for nested in [false, true] {
+                let inner = format!(
+                    "arr = array a b c d\nh = set ${{arr}}\nrounds = set 0\n{}\nrounds = calc ${{rounds}} + 1\nx = array_pop ${{arr}}\nif equals ${{rounds}} {}\nh = set nohandle\nelse\nh = set ${{arr}}\nend\nend\nleft = array_length ${{arr}}\nrelease ${{arr}}",
+                    cond, bad_round
+                );
+                let defs = "alias notempty not array_is_empty\nfn has_items\ne = array_is_empty ${1}\nr = not ${e}\nreturn ${r}\nend\n";
+                let text = if nested {
+                    format!("{}outer = set 0\nwhile less_than ${{outer}} 2\nouter = calc ${{outer}} + 1\n{}\ntotal = set \"${{total}}${{rounds}}\"\nend\nlast = set reached", defs, inner)
+                } else {
+                    format!("{}{}\nlast = set reached", defs, inner)
+                };
+                // four items, one popped per round; the failing evaluation still runs the body once
+                let mut expect: Vec<(&str, Option<String>)> = vec![("rounds", Some("4".into())), ("left", Some("0".into())), ("last", Some("reached".into()))];
+                if nested {
+                    expect.push(("outer", Some("2".into())));
+                    expect.push(("total", Some("44".into())));
+                }
+                scale_case(w, &format!("transient-error {} in evaluation {} {}", form, bad_round + 1, if nested { "nested" } else { "flat" }), &text, &expect);
+            }
+        }
+    }
+}
+
 pub fn worker(w: &mut Worker) {
     let tier = w.tier;
     w.risky = true;
     w.set_case_limit_ms(20_000);
     scale(w);
     message_texts(w);
+    transient_errors(w);
     w.set_case_limit_ms(1_000);
     let real_msg = {
         let mut s = Session::new();
@@ -743,7 +775,7 @@ pub fn crash_sig(_case: &Value, kind: &str) -> String {
     kind.to_string()
 }
 
-pub const RULE: &str = "programs: every sequence of 1..k error sites, each site = context {top level, function body, for body, while body, if branch, else branch, inside a script-implemented library command, included file, a function called from a loop, a loop inside a function, as the condition of if / elseif / while and as the operand of not, inside a function that is called as the condition of an if or as the operand of not inside a for body} x error kind {trigger_error, assert_error with a message containing a space, a real failing command, a message containing the literal text ${x}, a failing script-implemented command} x lines in front of the site {none, a blank line, blank + comment, `set_error` + an `exit_on_error` query (statements that touch the error record and the mode without being errors)}; each site assigns an output variable and is followed by get_last_error / get_last_error_line / get_last_error_source probes; x exit_on_error schedule {never, on from the start, turned on after the first site, on then off before the first site} x run mode {text (included files named by absolute path), file, file that includes the file with the sites}. Oracle (error protocol): output variable 'false'; message, 1-based line and source file of the instruction the runner was executing (the caller's line for the script-implemented command, the included file's own path and line for included code); the latest error wins; the script reaches its last line and the enclosing blocks go on as written (a for body with two elements and a while body run twice, the else branch of an if whose then-branch failed does not run); under exit_on_error the run fails with Runtime(message, line, source) of the first error after it was turned on, and the text the failure is reported with contains that message and line. Scale cases: 300/3000 (thorough 30000) errors raised in a loop and on as many different lines (the latest wins, with its line), and a fatal error that far down after exit_on_error. Message texts: 36 awkward texts (format placeholders, percent signs, brackets, quotes, escapes, blanks at the ends, words that read as false, option look-alikes) x {trigger_error, assert_error} x {top level, inside a function, behind an alias} x {recorded, fatal}: the text comes back unchanged. evaluations = programs run";
+pub const RULE: &str = "programs: every sequence of 1..k error sites, each site = context {top level, function body, for body, while body, if branch, else branch, inside a script-implemented library command, included file, a function called from a loop, a loop inside a function, as the condition of if / elseif / while and as the operand of not, inside a function that is called as the condition of an if or as the operand of not inside a for body} x error kind {trigger_error, assert_error with a message containing a space, a real failing command, a message containing the literal text ${x}, a failing script-implemented command} x lines in front of the site {none, a blank line, blank + comment, `set_error` + an `exit_on_error` query (statements that touch the error record and the mode without being errors)}; each site assigns an output variable and is followed by get_last_error / get_last_error_line / get_last_error_source probes; x exit_on_error schedule {never, on from the start, turned on after the first site, on then off before the first site} x run mode {text (included files named by absolute path), file, file that includes the file with the sites}. Oracle (error protocol): output variable 'false'; message, 1-based line and source file of the instruction the runner was executing (the caller's line for the script-implemented command, the included file's own path and line for included code); the latest error wins; the script reaches its last line and the enclosing blocks go on as written (a for body with two elements and a while body run twice, the else branch of an if whose then-branch failed does not run); under exit_on_error the run fails with Runtime(message, line, source) of the first error after it was turned on, and the text the failure is reported with contains that message and line. Scale cases: 300/3000 (thorough 30000) errors raised in a loop and on as many different lines (the latest wins, with its line), and a fatal error that far down after exit_on_error. Message texts: 36 awkward texts (format placeholders, percent signs, brackets, quotes, escapes, blanks at the ends, words that read as false, option look-alikes) x {trigger_error, assert_error} x {top level, inside a function, behind an alias} x {recorded, fatal}: the text comes back unchanged. evaluations = programs run. Transient errors: the condition of a running while loop (a command, an alias, a function) reports an error in its 2nd / 3rd / 4th evaluation only, flat and inside another loop: the body runs, the loop goes on to its natural end";
 pub const ASSUMPTIONS: &[&str] = &["the message of the real failing command is taken from running that command alone (differential)", "a failing command in condition position makes the wrapping library command (if / elseif / while / not) report that error on its own line; the script then goes on with the next line, which is the first line of the body (what the body's own end / else lines do afterwards is not looked at: the generated blocks have no else and a while body leaves through goto)"];
 pub const EXHAUSTIVE: bool = true;
 pub const WALL_CAP_S: (u64, u64) = (55, 1500);
